@@ -191,7 +191,7 @@ def pre_history_case(rng, g, tier):
 # max(0,l1)+max(0,l2), so a negative length is read as 0.  Narrow matcher: the verdict is ORACLE with exactly the raw
 # path-length message, which Judge/C06.v evaluates LAST (after tip set, splits, single nodes, clamped distances,
 # look-ups and the correspondence with the bug-compatible model all passed), and the input tree of the case has a
-# negative length other than the absent sentinel -1.
+# negative length other than the absent sentinel -1 (for a case with a pre-history: the tree dumped before the call).
 _NEG_MSG = "a path length between two remaining tips changed (a negative branch length was replaced by 0)"
 _NEG_LEN = re.compile(r"\(D (-\d+(?:/\d+)?) ")
 
@@ -201,7 +201,13 @@ def _neg_clamped(case):
     f = case.get("fields") or []
     if len(f) != 1 or f[0] != _NEG_MSG:
         return False
-    return any(v != "-1" for v in _NEG_LEN.findall(case.get("sx") or ""))
+    # the input of RemoveTips: the tree dumped just before the call when the case has a pre-history (GraftTipOnEdge
+    # halves the length of the grafted branch without looking at the sentinel: a branch without length becomes two
+    # branches of length -1/2), otherwise the tree of the case
+    obs = case.get("obs") or ""
+    i = obs.find("(pretree ") if isinstance(obs, str) else -1
+    text = obs[i:] if i >= 0 else (case.get("sx") or "")
+    return any(v != "-1" for v in _NEG_LEN.findall(text))
 
 MATCHERS = {"C06-negative-length-clamped-on-merge": _neg_clamped}
 
